@@ -57,9 +57,9 @@ for pid in sorted(md.CLAIMED):
         c["design_ref"] = c["design_ref"] + ", " + ref
         if "  Not decided:" in c["text"]:
             head, tail = c["text"].split("  Not decided:", 1)
-            c["text"] = head + "  After round 7: " + text + ".  Not decided:" + tail
+            c["text"] = head + "  Round 8: " + text + ".  Not decided:" + tail
         else:
-            c["text"] = c["text"] + "  After round 7: " + text + "."
+            c["text"] = c["text"] + "  Round 8: " + text + "."
         c["technique"] = c["technique"] + "; " + tech
     checks.append({
         "property_id": pid,
